@@ -128,7 +128,7 @@ theorem second_sort_total (cyc : List Edge → List Nat) (tables : List Tbl)
     set" to "node on a cycle" is the pigeonhole lemma `closed_set_has_cycle`. -/
 theorem second_sort_total_of_exact_cycles (cyc : List Edge → List Nat) (tables : List Tbl)
     (hn : (ids tables).Nodup) (hnoextra : ∀ t ∈ tables, t.extra = [])
-    (hcyc : ∀ x, OnCycle (mutable0 fltCreate tables) x → x ∈ cyc (mutable0 fltCreate tables)) :
+    (hcyc : ∀ x, Ddl.OnCycle (mutable0 fltCreate tables) x → x ∈ cyc (mutable0 fltCreate tables)) :
     ∃ s, sortTCWith cyc fltCreate [] tables = some s := by
   apply second_sort_total cyc tables hn hnoextra
   intro S hne hclosed
@@ -136,7 +136,7 @@ theorem second_sort_total_of_exact_cycles (cyc : List Edge → List Nat) (tables
   exact ⟨x, hx, hcyc x hon⟩
 
 /-- a two-table cycle: both nodes are on a cycle in the sense of `OnCycle` -/
-example : OnCycle [(1, 2), (2, 1)] 1 :=
+example : Ddl.OnCycle [(1, 2), (2, 1)] 1 :=
   Reach.tail (b := 2) (Reach.step (by decide)) (by decide)
 
 /-! ## create_all on a strict backend -/
